@@ -16,7 +16,7 @@ CHECKS = {
  "C04": dict(technique="differential PBT against an independent reference executor over generated schemas, operations, worlds and request histories",
              text="Generated schema specs, valid-by-construction operations, variable payloads and deterministic resolver worlds are executed through five entry points in drawn histories on one schema object; ordered data and the error multiset (path, resolver message/extensions, location) must equal the reference executor's.",
              note="Trusted: vlib/ref/exec.py + vlib/ref/parser.py (goldens); argument zones left to C07 are not generated.", ref="3/C04"),
- "C05": dict(technique="PBT with AST-level adversarial mutation; crash oracle + differential execution against reference executor and reference merge rule",
+ "C05": dict(technique="PBT with AST-level adversarial mutation; crash oracle + differential execution against reference executor and reference merge rule; plus a fixed family of deep documents (40-245 levels, six shapes)",
              text="Valid, mutated (20 labelled AST mutations) and grammar-random documents are validated with and without locations: any exception is a violation; documents the library validates are executed through both executor classes with generated accepted variables: no exception, no ambiguous response key (reference FieldsInSetCanMerge), data equal to the reference executor.",
              note="Trusted: vlib/ref/validate.py, vlib/ref/exec.py (goldens). Unspecified zones: __schema/__type sub-selections, missing root types, unset variables nested in literals, non-string literals for custom scalars.", ref="3/C05"),
  "C06": dict(technique="two-way differential PBT against a reference validator (26 June-2018 rules) + per-rule attribution + metamorphic verdict invariance",
@@ -28,7 +28,7 @@ CHECKS = {
  "C08": dict(technique="schedule-owning differential PBT: harness-controlled pool / gated asyncio loop, drawn and (thorough) exhaustively enumerated completion orders, fault injection of unexpected exceptions",
              text="Validated operations are executed in five executor/runtime configurations; the harness owns the executor (ThreadPoolRuntime._inner, asyncio default executor) and per-resolver gates, so it decides every completion order; data and error multiset must equal the reference executor in every configuration and schedule, the result must be done once all tasks are done, an injected unexpected exception must fail the overall result.",
              note="Trusted: vlib/sched/run.py, vlib/ref/exec.py. Completion-order granularity (see assumptions).", ref="3/C08"),
- "C09": dict(technique="history invariant over a harness-recorded event timeline under owned schedules (same harness as C08), mutation operations only",
+ "C09": dict(technique="history invariant over a harness-recorded event timeline under owned schedules (same harness as C08), mutation operations only; plus fixed wide mutations (120-1200 top-level fields) on all runtimes incl. a real thread pool",
              text="For mutation operations the timeline of submit/invoke/call/done events recorded by the owned pool, gates and resolvers must keep all events of an earlier top-level field before any event of a later one, in every configuration and completion order; all top-level fields run even after failures; key order and data equal the reference.",
              note="Trusted: vlib/sched/run.py event recording; submit time is taken as earliest possible invocation for pool tasks.", ref="3/C09"),
  "C16": dict(technique="single-timeline history invariant: recording instrumentations/middlewares/resolvers under owned schedules, compared with the reference executor's resolved-field list",
@@ -37,7 +37,7 @@ CHECKS = {
  "C17": dict(technique="PBT over event streams with per-event deterministic worlds and gated sources; per-event differential against the reference executor; refusal cases with pull counter",
              text="Subscription operations over generated schemas are driven with 0-8 events through plain and coroutine subscription resolvers whose sources and coroutine field resolvers await harness gates; one result per event, in order, equal to the reference executor on that event, no foreign errors; documented refusals raise before the source is pulled.",
              note="Trusted: EvWorld/Source/driver in props/c17.py, vlib/ref/exec.py.", ref="3/C17"),
- "C10": dict(technique="PBT/fuzz of whole requests (truncation sweep, token and AST mutation, bad operation names and variable payloads, faulted worlds) with a response-format validity predicate and reference-executor error matching; thorough tier adds a coverage-guided atheris/libFuzzer campaign over raw request texts against a fixed schema",
+ "C10": dict(technique="PBT/fuzz of whole requests (truncation sweep, token and AST mutation, bad operation names and variable payloads, faulted worlds, every valid request repeated under refusing validators) with a response-format validity predicate and reference-executor error matching; thorough tier adds a coverage-guided atheris/libFuzzer campaign over raw request texts against a fixed schema",
              text="Every generated request through three entry points must return a GraphQLResult whose response is strict JSON in the specification's format (message, 1-based in-text locations, path, extensions), with data absent exactly after parse/validation failures, error paths pointing at nulls and, for executed requests, exactly one error per faulted position as computed by the reference executor.",
              note="Trusted: check_response in props/c10.py, reference parser for the parse verdict, library validation for the validation verdict (tied to the specification by C06).", ref="3/C10"),
  "C11": dict(technique="model-based PBT: schema spec -> SDL with drawn order / extension split -> build_schema -> extracted structure must equal the spec; 21 labelled invalid variants must raise a GraphQLError",
@@ -46,22 +46,22 @@ CHECKS = {
  "C12": dict(technique="round-trip PBT schema -> SDL -> schema with a model of the printed text, history sequences of print calls, and differential against a fresh interpreter",
              text="SDL-built and code-built schemas from specs are printed under 7 option sets in drawn call histories; the text must parse, rebuild to the spec's structure, print back identically, carry exactly the expected directive applications per element, equal every earlier output for the same (schema, options) and the output of a fresh interpreter process.",
              note="Trusted: vlib/ref/schemastruct.py, reference parser for reading the printed text, subprocess worker (python -m props.c12).", ref="3/C12"),
- "C13": dict(technique="PBT with labelled violation injection into generated valid specs (32 injectors, k<=4 per schema), type-order permutations, and a resolver-registration history model",
+ "C13": dict(technique="PBT with labelled violation injection into generated valid specs (33 injectors, k<=4 per schema, some doubled on one element), type-order permutations, and a resolver-registration history model (field, per-type default and schema-wide default resolvers)",
              text="Valid code-built schemas must validate under every drawn type order; each injected rule violation (uniquely named element) must be reported by SchemaValidationError together with the others; register_resolver/validate histories must follow the model 'valid iff no currently registered resolver is bad'.",
              note="Trusted: injectors in props/c13.py (tokens are generated element names, not message texts), vlib/gen/schema.py build_code.", ref="3/C13"),
- "C14": dict(technique="operation-sequence PBT (clone / visibility / camel-case / extend / fix_type_references on the source or earlier results) with invariants after every step",
+ "C14": dict(technique="operation-sequence PBT (clone / visibility / camel-case / extend / fix_type_references on the source or earlier results, the source having served coercions before) with invariants after every step (closure, preservation, hidden elements vs queries / introspection / value coercion, source untouched)",
              text="After each drawn operation the result must be closed, hidden elements must be gone from types, references, introspection and queries, every untargeted element must keep its resolver objects, python names, defaults, descriptions and deprecations, and the source schema must keep its structure, closedness, SDL and probe-query answer.",
              note="Trusted: attrs()/snapshot()/check_result() in props/c14.py, vlib/ref/schemastruct.closed.", ref="3/C14"),
- "C15": dict(technique="model-based PBT: introspection result decoded into the schema-structure model and compared with an independent extraction; semantic default-value round trip; includeDeprecated and disable_introspection probes",
+ "C15": dict(technique="model-based PBT: introspection result decoded into the schema-structure model and compared with an independent extraction; semantic default-value round trip; includeDeprecated, unknown-name __type and disable_introspection probes; directives over all 19 locations",
              text="For generated schemas the standard introspection query's result must decode to exactly the structure extracted from schema.types/directives (kinds, members in order, wrappers, interfaces, possible types, directives, roots, deprecations); each defaultValue must parse as a GraphQL value and coerce to the declared default; includeDeprecated absent/false/true and disable_introspection behave as specified; thorough repeats it under every runtime configuration.",
              note="Trusted: decode()/expected_from_schema() in props/c15.py, vlib/ref/schemastruct.extract.", ref="3/C15"),
  "C18": dict(technique="model-based PBT: expected traversal from a generic walker over the reference parser tree, per-(parent kind, slot) attribution; edit plans (delete / replace / skip) with expected events and resulting tree; chained and dispatching visitors",
              text="Generated documents are visited with recording plain, dispatching (all hooks by reflection) and chained visitors; events must be enter/leave once per non-name node, nested, siblings in source order; a no-op visit leaves the tree equal; one drawn deletion / replacement / SkipNode must change exactly that node and its events; the three ast_transforms change only what they announce.",
              note="Trusted: vlib/ref/parser.py trees, expected-event derivation in props/c18.py. 21 traversal gaps pinned by the test-suite are listed as known findings by (kind, slot).", ref="3/C18"),
- "C19": dict(technique="differential PBT against a reference depth function over generated recursive selections with fragments at every level; exhaustive enumeration of fragment wrappings for small selections (thorough)",
+ "C19": dict(technique="differential PBT against a reference depth function over generated recursive selections with fragments at every level, per-operation variable defaults and omitted variables; exhaustive enumeration of fragment wrappings for small selections (thorough)",
              text="For generated documents, variable values, limits and operation_name filters the rule (called directly and through validate_ast) must report exactly the considered operations whose reference depth exceeds the limit and never raise; the reference follows the class docstring (fragments transparent, skipped selections ignored, merged keys take the maximum).",
              note="Trusted: ref_depths() in props/c19.py, self-checked on the docstring example.", ref="3/C19"),
- "C20": dict(technique="PBT over (schema, edited schema) pairs with 32 labelled elementary edits and an independent type-compatibility reference; equal-copy and permutation metamorphic checks; operation revalidation; hash-seed child processes (thorough)",
+ "C20": dict(technique="PBT over (schema, edited schema) pairs with 35 labelled elementary edits (incl. root types, abstract narrowing, default removal on non-null inputs) and an independent type-compatibility reference; equal-copy and permutation metamorphic checks; operation revalidation; hash-seed child processes (thorough)",
              text="Structurally equal copies must diff empty; each elementary edit must be reported by a change of the expected class naming the edited element unless the reference comparison (outputs only stricter, inputs only more permissive) calls it compatible; edits the reference classifies as breaking need a BREAKING change; without BREAKING changes operations valid on the old schema must validate on the new one; the change multiset is independent of definition order and PYTHONHASHSEED.",
              note="Trusted: edit injectors and output_compatible/input_compatible in props/c20.py.", ref="3/C20"),
 }
